@@ -133,9 +133,9 @@ def make_designs(ctx: Ctx, n: int):
                 if rng.random() < 0.7 and 'snvre' not in t['action'] and any(m in t['action'] for m in ('ala', 'aa', 'stop', 'inframe')):
                     t['action'] = sorted(set(t['action']) | {'snvre'})
         else:
-            focus = {'p_bg': 0.3, 'p_custom': 0.8, 'p_pam': 0.8, 'p_gtf': 0.9, 'p_table': 0.1, 'n_targetons': rng.choice([1, 2, 3]),
+            focus = {'p_bg': 0.5, 'n_bg': [2, 3, 4, 5], 'max_bg': 6, 'p_custom': 0.8, 'p_pam': 0.8, 'p_gtf': 0.9, 'p_table': 0.1, 'n_targetons': rng.choice([1, 2, 3]),
                      'cds_mut': ['snvre', 'snvre', 'aa', 'ala', 'stop', 'inframe'], 'non_cds_mut': ['snv', '1del', '2del0', '2del1'],
-                     'allow_short_cds': True, 'bg_kinds': ['snv', 'ins', 'del'], 'custom_kinds': ['snv', 'snv', 'mnv', 'ins', 'del', 'multi']}
+                     'allow_short_cds': True, 'bg_kinds': ['snv', 'ins', 'ins', 'del', 'del'], 'custom_kinds': ['snv', 'snv', 'mnv', 'ins', 'del', 'multi']}
             d = gen.gen_sge(rng, focus)
             # ties on every proper prefix of the ORDER BY key: records at one position, in several files, with and without ids
             if d.get('vcfs'):
